@@ -782,6 +782,8 @@ static inline void verif_lock_guard_dtor(std_lock_guard_std_mutex *g) { g->m->g_
             tr.rule("std::vector model")
             if m == "size":
                 return X("mem", o, "n", ty=parse_type("unsigned long"))
+            if m == "capacity":
+                return X("mem", o, "cap", ty=parse_type("unsigned long"))
             if m == "empty":
                 return X("bin", "==", X("mem", o, "n"), X("lit", "0ul"), ty=parse_type("bool"))
             if m in ("data", "c_str"):
